@@ -12,7 +12,8 @@
    Guard of every theorem: `pivots_positive … r` — each pivot met so far is > 0 (otherwise the
    library divides by zero / takes the root of a negative number: NaN). *)
 From mathcomp Require Import all_ssreflect all_algebra.
-Require Import C10.Model C10.ProofsBase C10.ProofsPC C10.ProofsLoop C10.ProofsMain C10.ProofsPrecondMx C10.ProofsPrecond.
+From mathcomp Require Import ring.
+Require Import C10.Model C10.ProofsBase C10.ProofsPC C10.ProofsLoop C10.ProofsMain C10.ProofsPrecondMx C10.ProofsPrecond C10.ProofsPSD.
 Set Implicit Arguments.
 Unset Strict Implicit.
 Unset Printing Implicit Defensive.
@@ -81,6 +82,24 @@ Theorem C10_orig_error_is_max_diag (R : rcfType) ln n max_iter (K : mat R) :
   (exists2 x, (x < n)%N & (pc_init (RA ln) n max_iter K).1 = get (RA ln) K x x) /\
   forall x, (x < n)%N -> get (RA ln) K x x <= (pc_init (RA ln) n max_iter K).1.
 Proof. exact: orig_is_max_diag. Qed.
+
+(* under-approximation: if K is positive semi-definite, then K - L_k L_k^T is positive semi-definite
+   for every prefix L_k (k <= r) of the returned factor — each body is a Schur-complement step, i.e. a
+   completion of the square in the quadratic form *)
+Theorem C10_residual_psd (R : rcfType) ln n max_iter (K : mat R) r k :
+  symmetric_mat ln K -> (r <= n)%N -> (r <= max_iter)%N -> pivots_positive ln n max_iter K r ->
+  psd_mat ln n K -> (k <= r)%N ->
+  forall x : 'rV[R]_n, 0 <= qf x (\matrix_(i < n, j < n) resid ln n max_iter K r k i j).
+Proof. by move=> Hs Hn Hm Hp HK Hk; exact: residual_psd. Qed.
+
+(* hence the residual diagonal is non-negative and the early-stopping quantity is exactly
+   trace(K - L L^T) / max_i K_ii *)
+Theorem C10_error_is_trace (R : rcfType) ln n max_iter (K : mat R) r :
+  symmetric_mat ln K -> (r <= max_iter)%N -> pivots_positive ln n max_iter K r ->
+  psd_mat ln n K -> (0 < r)%N -> (r < n)%N ->
+  pcerr (member_run ln n max_iter K r)
+  = (\sum_(x < n) resid ln n max_iter K r r x x) / (pc_init (RA ln) n max_iter K).1.
+Proof. by move=> Hs Hm Hp HK H0 Hn; apply: error_is_trace => //; apply: ltnW. Qed.
 
 (* the call as a whole: all members run the same r bodies, 1 <= r <= min(rank, n); the call returns,
    for every member, the first r columns and the permutation of its own run; it stops before
@@ -234,11 +253,16 @@ Proof. exact: model_precond_fallback. Qed.
    (second pivot value: 2 - (1/sqrt 2)^2 = 3/2) *)
 Example C10_hypotheses_satisfiable (R : rcfType) (ln : R -> R) :
   let K : mat R := [:: [:: 2%:R; 1]; [:: 1; 2%:R]] in
-  symmetric_mat ln K /\ pivots_positive ln 2 2 K 2.
+  [/\ symmetric_mat ln K, psd_mat ln 2 K & pivots_positive ln 2 2 K 2].
 Proof.
 move=> K; split.
-  move=> i j; rewrite /get /K.
+- move=> i j; rewrite /get /K.
   by case: i => [|[|i]]; case: j => [|[|j]] //=; rewrite ?nth_nil.
+- move=> x; rewrite /qf mxE !big_ord_recl big_ord0 !mxE !big_ord_recl !big_ord0 !mxE /= /get /=.
+  set a := x 0 ord0; set b := x 0 (lift ord0 ord0).
+  have -> : (a * 2%:R + (b * 1 + 0)) * a + ((a * 1 + (b * 2%:R + 0)) * b + 0)
+            = a ^+ 2 + b ^+ 2 + (a + b) ^+ 2 by ring.
+  by rewrite !addr_ge0 // sqr_ge0.
 move=> j; case: j => [|[|j]] // _.
   by rewrite /pc_pivot_value /pc_argmax /member_run /= /tgt /= ltxx /= ltr0n.
 rewrite /pc_pivot_value /member_run /= /pc_step /pc_argmax /= /tgt /= ltxx /= /swap_perm /=.
